@@ -1,4 +1,4 @@
--- Reproduction through the library API (tools/api_runner) of the defect repaired by the "fix:" commit
+-- Reproduction through the library API (tools/api_runner) of the defect repaired by the "fix:" commit bd4781a4
 -- "UPDATE and DELETE were not undone by ROLLBACK TO SAVEPOINT" (executor update/mod.rs, delete/executor.rs, storage database/core.rs undo_change).
 -- Run: /verif/.cache/runner-target/debug/runner findings/fixed_c14_update_delete_not_undone.sql
 -- Only Database::insert_row recorded a TransactionChange. UPDATE and DELETE never called record_change, so ROLLBACK TO SAVEPOINT undid the INSERT
